@@ -11,12 +11,102 @@ META = dict(
                 thorough="as C02 thorough"),
     outside=["digit-level drift of float formatting: numbers are exact terms, so 'bit-identical' is decided up to the "
              "idealisation that printing a value that was parsed from the same format reproduces its digits",
-             "wavefunction formats (see C01 harnesses)", "QCSchema provenance (documented exception)"],
+             "wavefunction formats (see C01 harnesses)", "QCSchema provenance (documented exception)",
+             "QCSchema documents: five corpus fixtures with tokenised numbers, each with unknown keys injected at the "
+             "top level / molecule / keywords / protocols"],
     assumptions=c02.META["assumptions"],
     explanation="symbolic execution of three dump/load generations through the real API",
 )
 
 
+def _drop_provenance(o):
+    if isinstance(o, dict):
+        return {k: _drop_provenance(v) for k, v in o.items() if k != "provenance"}
+    if isinstance(o, list):
+        return [_drop_provenance(v) for v in o]
+    return o
+
+
+def h_json_cycles(ctx, fn="LiCl_STO4G_Gaussian_input.json", inject="none"):
+    """QCSchema: cycles 2 and 3 give the same object and the same file (provenance exempt)."""
+    import copy
+    import json
+    import os
+    import warnings
+    import iodata.api as api
+    from iodata.utils import DumpError, LoadError, PrepareDumpError
+    from harness import rt
+    from symx import corpus, symjson
+    from symx.stubs import stubbed
+    mods = rt._fmt_modules("json_qcschema")
+    doc = json.load(open(os.path.join(os.path.dirname(api.__file__), "test", "data", fn)))
+    # legitimate documents may carry keys this library does not know (they must survive or be dropped ONCE)
+    if inject == "protocols" and isinstance(doc.get("protocols", {}), dict):
+        doc.setdefault("protocols", {}).update({"error_correction": {"default_policy": True}, "native_files": "all"})
+    elif inject == "toplevel":
+        doc["my_unknown_key"] = {"a": [1, 2, 3]}
+    elif inject == "molecule" and isinstance(doc.get("molecule"), dict):
+        doc["molecule"]["my_unknown_key"] = "abc"
+        doc["molecule"].setdefault("extras", {})["note"] = {"nested": [1, {"x": 2}]}
+    elif inject == "keywords":
+        doc.setdefault("keywords", {})["my_option"] = {"nested": True}
+        doc.setdefault("extras", {})["note"] = [1, 2]
+    text = json.dumps(doc, indent=4)
+    with stubbed(*mods):
+        t2, _table = corpus.tokenise(text, min_decimals=3, max_tokens=400)
+        p0 = ctx.tmp_path("gen0.json")
+        ctx.write_text(p0, t2)
+        objs, texts = [], []
+        try:
+            with warnings.catch_warnings(record=True):
+                warnings.simplefilter("always")
+                cur = api.load_one(p0, fmt="json_qcschema")
+                for g in (1, 2, 3):
+                    pg = ctx.tmp_path(f"gen{g}.json")
+                    api.dump_one(cur, pg, fmt="json_qcschema")
+                    texts.append(ctx.read_text(pg))
+                    cur = api.load_one(pg, fmt="json_qcschema")
+                    objs.append(cur)
+        except (LoadError, DumpError, PrepareDumpError) as e:
+            # a document that cannot be cycled is C02's subject; nothing to compare here
+            ctx.note(f"cycle failed: {e} / {e.__cause__!r}")
+            ctx.oblige("document-can-be-cycled", inject != "none", cls=f"{fn},{inject}", detail=f"{e} / {e.__cause__!r}")
+            return
+        cls = f"json,{fn},{inject}"
+
+        def strip(o):
+            d = copy.copy(o)
+            return d
+        s2, s3 = rt.snapshot(ctx, objs[1]), rt.snapshot(ctx, objs[2])
+        for where, f in rt._value_equal(ctx, _strip_snap(s2), _strip_snap(s3), "obj"):
+            ctx.oblige("cycle3-object-equals-cycle2-object", f, cls=f"{cls}:{where[:60]}")
+        d2 = _drop_provenance(symjson.loads(texts[1]) if ctx.mode == "sym" else json.loads(texts[1]))
+        d3 = _drop_provenance(symjson.loads(texts[2]) if ctx.mode == "sym" else json.loads(texts[2]))
+        for where, f in rt._value_equal(ctx, rt._snap(d2), rt._snap(d3), "file"):
+            ctx.oblige("cycle3-file-equals-cycle2-file", f, cls=f"{cls}:{where[:60]}")
+
+
+def _strip_snap(s):
+    """Remove provenance entries from a snapshot tree."""
+    kind = s[0]
+    if kind == "dict":
+        return ("dict", s[1], {k: _strip_snap(v) for k, v in s[2].items() if k != "provenance"})
+    if kind == "obj":
+        return ("obj", s[1], {k: _strip_snap(v) for k, v in s[2].items()})
+    if kind == "seq":
+        return ("seq", s[1], s[2], [_strip_snap(v) for v in s[3]])
+    return s
+
+
+JSON_FIXTURES = ["LiCl_STO4G_Gaussian_input.json", "H2O_CCSDprTpr_STO3G_output.json", "CuSCN_molecule_extra.json",
+                 "LiCl_STO4G_Gaussian_input_nested_extra.json", "water_full.json"]
+
+
 def jobs(tier):
     out = [j for j in c02.jobs(tier, prop="C15") if "twin" not in j["name"]]
+    from symx.runner import job
+    for fn in JSON_FIXTURES:
+        for inject in ("none", "protocols", "toplevel", "molecule", "keywords"):
+            out.append(job("C15", f"json-cycles[{fn},{inject}]", "harness.c15", "h_json_cycles", dict(fn=fn, inject=inject),
+                           max_validate=1))
     return out
